@@ -37,7 +37,9 @@ F_CONV = {"in": fdrv.conv_in, "out": fdrv.conv_out}
 
 # ------------------------------------------------------------------ the ownership library
 
-def own_library(name, lang, wraps, options=None, fmt=None, namespace=None, pattern_first=True):
+def own_library(name, lang, wraps, options=None, fmt=None, namespace=None, pattern_first=True, ns_block=None):
+    """ns_block: name of a namespace block that holds every function not tied to the class (their release routines are
+    then first met inside the namespace, not at library level)."""
     fs = []
     if lang == "c++":
         fs += [F(K, "void", [], cls=K, ctor=True, fid=K + "#ctor0", yaml={"format": {"function_suffix": "_default"}}),
@@ -90,6 +92,10 @@ def own_library(name, lang, wraps, options=None, fmt=None, namespace=None, patte
     if (options or {}).get("F_CFI"):
         drop |= {"vret", "vretd"}
     fs = [f for f in fs if f["name"] not in drop]
+    if ns_block and lang == "c++":
+        for f in fs:
+            if not f.get("cls") and f["name"] not in ("getptr", "pooled", "make", "copy", "use"):
+                f["ns"] = ns_block
     for f in fs:
         f["shape"] = "own"
         f.setdefault("fid", f["name"])
@@ -403,7 +409,14 @@ def step_call(lib, st_, learned=None):
 
 def fortran_driver(lib, steps):
     mod = lib["name"].lower() + "_mod"
-    L = ["program vf_driver", "  use iso_c_binding", "  use vf_out", "  use %s" % mod, "  implicit none"]
+    L = ["program vf_driver", "  use iso_c_binding", "  use vf_out", "  use %s" % mod]
+    for nsb in sorted({f["ns"] for f in lib["functions"] if f.get("ns")}):
+        names = sorted({v["f_generic"] for f in lib["functions"] if f.get("ns") == nsb for v in f["variants"]} |
+                       {v["f_specific"] for f in lib["functions"] if f.get("ns") == nsb for v in f["variants"]})
+        if any(f.get("ns") == nsb and f["ret"]["kind"] == "arr_ptr" for f in lib["functions"]):
+            names.append("%sSHROUD_capsule" % lib["c_prefix"])       # the capsule type lives in the module that needs it
+        L.append("  use %s_%s_mod, only: %s" % (lib["name"].lower(), nsb.lower(), ", ".join(names)))
+    L.append("  implicit none")
     if lib["language"] == "c++":
         L.append("  type(%s) :: h0, h1, h2, h3, h4" % K.lower())
     L.append("  type(%sSHROUD_capsule) :: crv0, crv1, crv2" % lib["c_prefix"])
@@ -772,6 +785,11 @@ def make_cases(r, thorough):
                 steps = make_history(lib, common.rng("c06hist", k), target, n_ops)
                 cases.append({"lib": lib, "target": target, "steps": steps})
                 k += 1
+    # the same library with everything that is not tied to the class inside a namespace block
+    for target, wraps, cfi in (("fortran", ("c", "fortran"), False), ("c", ("c",), False), ("fortran", ("c", "fortran"), True)):
+        lib = own_library("own%d" % k, "c++", wraps, options={"F_CFI": cfi, "debug": False}, ns_block="ons")
+        cases.append({"lib": lib, "target": target, "steps": make_history(lib, common.rng("c06hist", k), target, n_ops)})
+        k += 1
     return cases
 
 
